@@ -43,7 +43,8 @@ CONFIG = {
                    'constants; structures with a fair and an unfair cycle; '
                    'seeded random ones) is judged against the fair semantics. '
                    'Known defects are reported as KNOWN-FINDING only when '
-                   'their executable model reproduces the observation.'),
+                   'their executable model reproduces the observation.'
+                   ' Also (round 6): related constraint families (equal-but-distinct duplicates, the same object twice, implied supersets, reversed lists).'),
     'level_note': ('Trusted base: refsem.Star with fairness (lasso-certified '
                    'in C02\'s check), refsem.fair_states, the defect models '
                    'in vmon/defects.py (they decide only between '
